@@ -252,3 +252,85 @@ func (o *Once) Do(f func()) {
 		f()
 	}
 }
+
+// Cond: Wait registers the caller, releases L, parks until a Signal or Broadcast issued after the registration
+// reaches it, and re-locks L. Signal wakes the longest waiting goroutine (the order of sync.Cond's notify list).
+type Cond struct {
+	L Locker
+
+	waiters []*condWaiter
+}
+
+type condWaiter struct{ woken bool }
+
+func NewCond(l Locker) *Cond { return &Cond{L: l} }
+
+func (c *Cond) Wait() {
+	w := &condWaiter{}
+	guard.Lock()
+	c.waiters = append(c.waiters, w)
+	guard.Unlock()
+	c.L.Unlock()
+	simrt.Park(func() bool { return w.woken })
+	c.L.Lock()
+}
+
+func (c *Cond) Signal() {
+	guard.Lock()
+	if len(c.waiters) > 0 {
+		c.waiters[0].woken = true
+		c.waiters = c.waiters[1:]
+	}
+	guard.Unlock()
+}
+
+func (c *Cond) Broadcast() {
+	guard.Lock()
+	for _, w := range c.waiters {
+		w.woken = true
+	}
+	c.waiters = nil
+	guard.Unlock()
+}
+
+// OnceFunc, OnceValue and OnceValues as in package sync (a panic of f is re-raised on every call).
+func OnceFunc(f func()) func() {
+	var once Once
+	var p any
+	valid := false
+	return func() {
+		once.Do(func() {
+			defer func() {
+				if !valid {
+					p = recover()
+					panic(p)
+				}
+			}()
+			f()
+			f = nil
+			valid = true
+		})
+		if !valid {
+			panic(p)
+		}
+	}
+}
+
+func OnceValue[T any](f func() T) func() T {
+	var result T
+	g := OnceFunc(func() { result = f() })
+	return func() T {
+		g()
+		return result
+	}
+}
+
+func OnceValues[T1, T2 any](f func() (T1, T2)) func() (T1, T2) {
+	var r1 T1
+	var r2 T2
+	g := OnceFunc(func() { r1, r2 = f() })
+	return func() (T1, T2) {
+		g()
+		return r1, r2
+	}
+}
